@@ -290,11 +290,22 @@ var badFamilies = [][]reflect.Type{
 	{reflect.TypeOf(BadMidA{}), reflect.TypeOf(BadMidB{}), reflect.TypeOf(BadMidC{})},
 }
 
+// maps keyed by pointers: every decoded key is a new pointer, so entries never merge
+// (the key's pointee still has to come back, and the key's descriptor says "explicit presence")
+type PtrKeys struct {
+	A map[*KeyS]int      `plenc:"1"`
+	B map[*int]string    `plenc:"2"`
+	C map[*string]*Inner `plenc:"3"`
+	P map[*KeyS]string   `plenc:"5,proto"`
+	Q map[KeyS]int32     `plenc:"6,proto"`
+}
+
 var catalogue = []reflect.Type{
 	reflect.TypeOf(Rec{}), reflect.TypeOf(RecMap{}), reflect.TypeOf(MutA{}), reflect.TypeOf(MutB{}),
 	reflect.TypeOf(Unexp{}), reflect.TypeOf(Named{}), reflect.TypeOf(Times{}), reflect.TypeOf(Ptrs{}),
 	reflect.TypeOf(Inner{}), reflect.TypeOf(Maps{}), reflect.TypeOf(Slices{}),
 	reflect.TypeOf(map[KeyS]Inner{}), reflect.TypeOf([]Rec{}), reflect.TypeOf(map[string]MutA{}),
+	reflect.TypeOf(PtrKeys{}), reflect.TypeOf(map[*string]int{}),
 }
 
 var catalogueNull = []reflect.Type{reflect.TypeOf(WithNull{}), reflect.TypeOf(NullSlices{}), reflect.TypeOf([]null.Float{})}
